@@ -32,6 +32,8 @@ R4 (K1 commit point) once the rename phases completed, every continuation on whi
 R1c a failed mover.rename in either phase is tolerated only for errno.ENOENT; anything else re-raises into the rollback.
 Added while testing against seeded changes: R5 the limbo / removal helpers cloned between bzr/transform.py and
 git/transform.py have equal effect signatures.
+Fourth round: finalizer-disarmed-first — in DiskTreeTransform.finalize (bzr and git) no exception edge leaves before
+self._cleanup_finalizer.detach(); parked-name-is-transform-id — _apply_removals joins self._deletiondir with the transform id.
 Does not decide: exact restoration for every transform shape; failures of in-memory computation between the phases.
 """
 ASSUMPTIONS = ["fault model: only working-tree file-system operations fail (the property's quantifier); in-memory calls between the phases and the metadata update do not"]
@@ -186,9 +188,27 @@ def run(ctx):
         bad_exits = [e for e in (g.exit, g.raise_exit) if e in got]
         w = g.path(starts, bad_exits, avoid=upd) if bad_exits else None
         ctx.check("R4", where, not bad_exits, f"after the rename phases succeeded every continuation (including a failing file-system operation) reaches self._tree.{meta}()", construct="mover.apply_deletions()" if bad_exits else "", message="a file-system failure after the commit point (discarding replaced content) skips the metadata update: files are in the new layout, metadata describes the old one", witness=g.show_path(w) if w else None)
+    # ---- fourth round: the GC safety net is disarmed before finalize() can fail; parked names are the transform ids ------
+    for rel_ in (BT, GT):
+        ffz, gfz, wfz = fn_cfg(ctx, rel_, "DiskTreeTransform.finalize")
+        det = need(wfz, calling(gfz, attr="detach", recv="self._cleanup_finalizer"), "self._cleanup_finalizer.detach()")
+        ctx.check("finalizer-disarmed-first", wfz, gfz.raise_exit not in gfz.reach([gfz.entry], avoid=set(det), include_src=True), "no exception leaves finalize() before the weakref finalizer was detached", message="finalize() can raise (ImmortalLimbo / ImmortalPendingDeletion) with the GC safety net still armed: the finalizer removes limbo/ and pending-deletion/ by path, and those paths are shared by every later transform of the tree — when the garbage collector runs it during a later transform, that transform's parked files are deleted and its rollback cannot restore them")
+        fn_rm = None
+        for q_ in ("InventoryTreeTransform._apply_removals", "GitTreeTransform._apply_removals"):
+            if repo.has(rel_, q_):
+                fn_rm = (q_, repo.func(rel_, q_))
+        ctx.require(fn_rm is not None, f"{rel_}: _apply_removals not found")
+        q_, f_ = fn_rm
+        joins = [c for c in calls_in(f_) if norm(c.func) in ("os.path.join", "osutils.pathjoin", "pathjoin") and c.args and norm(c.args[0]) == "self._deletiondir"]
+        ctx.require(bool(joins), f"{rel_}:{q_}: os.path.join(self._deletiondir, …) not found")
+        ids = {n_.left.id for n_ in ast.walk(f_) if isinstance(n_, ast.Compare) and isinstance(n_.left, ast.Name) and any(isinstance(o, ast.In) for o in n_.ops) and any("_removed_contents" in norm(cm) for cm in n_.comparators)}
+        for c in joins:
+            okj = len(c.args) == 2 and isinstance(c.args[1], ast.Name) and c.args[1].id in ids
+            ctx.check("parked-name-is-transform-id", f"{rel_}:{q_}", okj, "a file parked in pending-deletion/ is named by its transform id (unique per entry)", construct=norm(c)[:90], message=f"{q_} parks removed files under a name computed from something other than the transform id ({norm(c)[:80]}): two entries can map to the same parked name, the second rename replaces the first, and a rollback after a later failure cannot bring the first file back")
 
 
 _OLD_B = "            except BaseException:\n                mover.rollback()\n                raise\n"
+
 MUTANTS = [
     Mutant("rollback handler narrowed to Exception (bzr)", BT, _OLD_B, "            except Exception:\n                mover.rollback()\n                raise\n", expect="R3-phases-guarded"),
     Mutant("ENOTDIR tolerated when moving entries into place", BT, "                        # We may be renaming a dangling inventory id\n                        if e.errno != errno.ENOENT:\n", "                        # We may be renaming a dangling inventory id\n                        if e.errno not in (errno.ENOENT, errno.ENOTDIR):\n", expect="R1c-rename-failure-aborts"),
